@@ -29,6 +29,10 @@ import (
 type c08Handler struct {
 	resp *dns.Msg
 	mode string
+
+	// next is the handler that mode "next" passes the query on to (the real
+	// forwarding handler in part forward).
+	next Handler
 }
 
 // ServeDNS implements the [Handler] interface for *c08Handler.
@@ -38,6 +42,8 @@ func (h *c08Handler) ServeDNS(ctx context.Context, rw ResponseWriter, req *dns.M
 		return nil
 	case "error":
 		return errors.New("c08: scripted handler error")
+	case "next":
+		return h.next.ServeDNS(ctx, rw, req)
 	default:
 		return rw.WriteMsg(ctx, req, h.resp)
 	}
